@@ -199,6 +199,8 @@ pub struct RawReq {
     pub body: Vec<u8>,
     /// split the body into chunks of these sizes when streaming (empty = one piece)
     pub chunks: Vec<usize>,
+    /// the upload breaks after this many chunks (transport error in the middle of the body)
+    pub abort_after: Option<usize>,
 }
 
 pub struct HttpDriver<S> {
@@ -246,10 +248,20 @@ where
                 pieces.push(actix_web::web::Bytes::copy_from_slice(&r.body[off..]));
             }
             let (mut tx, payload) = actix_http::h1::Payload::create(true);
-            for p in pieces {
-                tx.feed_data(p);
+            match r.abort_after {
+                Some(k) => {
+                    for p in pieces.into_iter().take(k) {
+                        tx.feed_data(p);
+                    }
+                    tx.set_error(actix_http::error::PayloadError::Incomplete(None));
+                }
+                None => {
+                    for p in pieces {
+                        tx.feed_data(p);
+                    }
+                    tx.feed_eof();
+                }
             }
-            tx.feed_eof();
             let rq = tr.to_request();
             let (rq, _) = rq.replace_payload(actix_http::Payload::from(payload));
             rq
@@ -294,7 +306,7 @@ where
         if let Some(ct) = ct {
             headers.push(("Content-Type".to_string(), ct.as_bytes().to_vec()));
         }
-        RawReq { method: method.to_string(), uri, headers, body, chunks: vec![] }
+        RawReq { method: method.to_string(), uri, headers, body, chunks: vec![], abort_after: None }
     }
 }
 
